@@ -347,10 +347,20 @@ def parse_obs(line):
             "probes": sx.field(x[1:], "probes"), "snaps": sx.field(x[1:], "snaps"), "extra": extra}
 
 
-def user_logs(ob, with_idx=False):
+def user_logs(ob, with_idx=False, canon=False):
+    """per-subscriber sequences; with canon=True the recorders of inner observables (c<j>, numbered in creation order, which depends
+    on the hash order in which a Subject calls its observers) are renamed after their parent: <parent>/<k> = the k-th observable
+    the parent received"""
     d = {}
+    rename, nobs, nxt = {}, {}, 0
     for (u, i, e) in ob["log"]:
-        d.setdefault(u, []).append((i, e) if with_idx else e)
+        u2 = rename.get(u, u) if canon else u
+        d.setdefault(u2, []).append((i, e) if with_idx else e)
+        if canon and isinstance(e, list) and len(e) == 2 and e[0] == "n" and e[1] == ["obs"]:
+            k = nobs.get(u2, 0)
+            nobs[u2] = k + 1
+            rename["c%d" % nxt] = "%s/%d" % (u2, k)
+            nxt += 1
     return d
 
 
@@ -358,7 +368,7 @@ def project_default(ob):
     """per-subscriber event sequences with action indices, outcome, probes, snapshots"""
     if ob["out"] != "ok":
         return {"out": ob["out"]}
-    return {"out": "ok", "logs": user_logs(ob, True), "tap": ob["tap"], "probes": ob["probes"], "snaps": ob["snaps"]}
+    return {"out": "ok", "logs": user_logs(ob, True, canon=True), "tap": ob["tap"], "probes": ob["probes"], "snaps": ob["snaps"]}
 
 
 # ---------------------------------------------------------------- evidence / verdict
